@@ -364,7 +364,7 @@ func checkC45(c *Ctx, r *Report) {
 	}
 	// isRouted consults all four sets
 	var ir *ssa.Function
-	for _, af := range fn.AnonFuncs {
+	for _, af := range anonFuncsOf(fn) {
 		if af.Name() == "ExplodeXML$1" {
 			ir = af
 		}
